@@ -765,6 +765,13 @@ func (g *gctx) forStmt() []*Stmt {
 	g.push(false)
 	ay := g.afterYield
 	body := []*Stmt{g.evStmt()}
+	if s.E != nil && !g.prof.noEv && g.pct(35, "barebody") {
+		// the loop condition is logged (and burns fuel) instead of an event at the top of the body: the body may start
+		// with any statement, also with another loop
+		s.E = &Expr{K: "vlb", N: g.ev(), L: s.E}
+		body = nil
+		g.prog.tag("loop-body-without-leading-event")
+	}
 	if s.Name != "" {
 		body = append(body, &Stmt{K: "incdec", Name: s.Name, Op: "++"})
 		s.Name = ""
